@@ -169,6 +169,24 @@ def run(m: Model, r: Report, tier: str) -> None:
                       if isinstance(n, (ast.Assign, ast.AnnAssign)) and n.value is not None)
     r.check(assigned(init) == assigned(reset), "R2", f"{ecu_state.qualname}#reset-equals-initial", f"__init__ sets {assigned(init)}, reset sets {assigned(reset)}", loc=ecu_state.loc)
 
+    # the logged state is the state at the time the request is on the wire: ECU._request waits for the client mutex inside the awaited
+    # exchange, so a snapshot taken before it can be stale by the time of transmission (another task changed the session meanwhile)
+    from sa import transport_rules as _tr2
+    ereq = m.require_function(f"{ECU}.ECU._request")
+    icalls = [n for n in ast.walk(ereq.node) if isinstance(n, ast.Call) and isinstance(n.func, ast.Attribute) and n.func.attr == "insert_scan_result"]
+    exch = [n for n in ast.walk(ereq.node) if isinstance(n, ast.Call) and ast.unparse(n.func) == "super()._request"]
+    if len(icalls) != 1 or len(exch) != 1:
+        raise AnalysisError(f"{ereq.qualname}: insert_scan_result / super()._request not found")
+    ib = _tr2.bind_call(m, ereq, icalls[0])
+    sarg = ib.get("state") if ib else (icalls[0].args[0] if icalls[0].args else None)
+    oks = sarg is not None and ast.unparse(sarg) == "self.state.__dict__"
+    if sarg is not None and isinstance(sarg, ast.Name):
+        defs_ = [n for n in ast.walk(ereq.node) if isinstance(n, ast.Assign) and ast.unparse(n.targets[0]) == sarg.id]
+        oks = bool(defs_) and all(d.lineno > exch[0].lineno and "self.state" in ast.unparse(d.value) for d in defs_)
+    r.check(oks, "R2", f"{ereq.qualname}#state-at-transmission",
+            f"the logged state is `{ast.unparse(sarg) if sarg is not None else None}`" + (" (captured before the exchange waits for the client mutex)" if not oks else "") +
+            ": it must be read after the exchange and before update_state, i.e. the state the request was transmitted in", loc=ereq.loc)
+
     # ---------------------------------------------------------------- R3
     con = sqlcheck.schema_db(m)
     n_var = 0
@@ -242,6 +260,36 @@ def run(m: Model, r: Report, tier: str) -> None:
         r.check(re.match(r"\s*INSERT\s+OR\s+IGNORE\s+INTO\s+address", s, re.I) is not None, "R5", f"{q}#address-insert",
                 f"`{s}`: an existing address row must be kept (REPLACE deletes it: its ecu link is lost and earlier scan_run.address become NULL, "
                 "so selection by ECU name no longer finds the recording)", loc=q)
+
+    # row ids are only taken from plain INSERTs: after `INSERT OR IGNORE/REPLACE` that did not insert, lastrowid is the id of whatever row
+    # the connection inserted last (another table's), so runs get linked to a foreign address / ECU
+    n_lr = 0
+    for f in dbh.methods.values():
+        assigns_ = sorted([n for n in ast.walk(f.node) if isinstance(n, (ast.Assign, ast.AnnAssign)) and n.value is not None], key=lambda n: n.lineno)
+        def latest(name: str, before: int):
+            c_ = [n for n in assigns_ if n.lineno <= before and ast.unparse(n.targets[0] if isinstance(n, ast.Assign) else n.target) == name]
+            return c_[-1].value if c_ else None
+        for n in ast.walk(f.node):
+            if not (isinstance(n, ast.Attribute) and n.attr == "lastrowid"):
+                continue
+            n_lr += 1
+            src = n.value
+            if isinstance(src, ast.Name):
+                src = latest(src.id, n.lineno)
+            while isinstance(src, ast.Await):
+                src = src.value
+            sql = None
+            if isinstance(src, ast.Call) and isinstance(src.func, ast.Attribute) and src.func.attr in ("execute", "executemany") and src.args:
+                q = src.args[0]
+                if isinstance(q, ast.Name):
+                    q = latest(q.id, src.lineno)
+                sql = m.try_fold(f.module, q) if q is not None else None
+            if not isinstance(sql, str):
+                raise AnalysisError(f"{f.qualname}: cannot resolve the statement whose lastrowid is used (line {n.lineno})")
+            r.check(re.match(r"\s*INSERT\s+INTO\b", sql, re.I) is not None, "R5", f"{f.qualname}#lastrowid@{sql.split()[-1] if 'INTO' not in sql.upper() else re.split(r'INTO', sql, flags=re.I)[1].split('(')[0].strip()}",
+                    f"lastrowid of `{sql[:60]}` is used as a row id: when the statement inserts nothing it is the id of the last row inserted into another table", loc=f"{f.module.relpath}:{n.lineno}")
+    if n_lr < 3:
+        raise AnalysisError(f"only {n_lr} lastrowid uses found in DBHandler")
 
     # ---------------------------------------------------------------- R6
     from sa import sqlcheck as _sq
